@@ -190,6 +190,12 @@ class TGen:
         r, k = self.r, self.k
         x = r.random()
         raw = r.random() < 0.2
+        if x < 0.06:
+            # update_generation while the run goes on (a `new` scope ending): some positions, some generations
+            us = [(k.randrange(0, 12), k.randrange(0, 4)) for _ in range(k.choice([1, 2, 3]))]
+            for p, g in us:
+                ops.append(["upd_gen", p, g])
+            return "(DGens [%s])" % "; ".join("(%d, %d)" % u for u in us)
         if x < 0.45:
             self.cid += 1
             kind = r.choice(["scalar", "scalar", "stream", "unused", "failed"])
